@@ -821,3 +821,121 @@ pub fn collect_literals(rx: &Rx, out: &mut Vec<char>) {
         _ => {}
     }
 }
+
+// ---------------------------------------------------------------------------------------------
+// Expected build verdict of a pattern string (C15), from regex-syntax's parse and a walk of the
+// whole AST.
+
+#[derive(Debug, Clone, PartialEq, Eq)]
+pub enum BuildVerdict {
+    /// syntax error or a construct documented as unsupported: building must fail
+    MustErr(String),
+    /// only literals, dot, bracketed and Perl classes, groups, alternation, concatenation, greedy
+    /// repetitions: building must succeed
+    MustOk,
+    /// contains a Unicode class with a plausible name: the statement allows both
+    Either,
+}
+
+/// Names that are certainly not Unicode properties or general categories.
+pub const NONSENSE_UNICODE_NAMES: &[&str] = &["Xyz", "Foo", "NotAClass", "Qq"];
+pub const NONSENSE_UNICODE_LETTERS: &[char] = &['X', 'Q', 'J', 'Y'];
+
+#[derive(Default)]
+struct Walk {
+    unsupported: Option<String>,
+    unicode: bool,
+}
+
+fn walk_unicode(u: &ast::ClassUnicode, w: &mut Walk) {
+    match &u.kind {
+        ast::ClassUnicodeKind::NamedValue { .. } => {
+            w.unsupported.get_or_insert("valued Unicode class".into());
+        }
+        ast::ClassUnicodeKind::OneLetter(c) => {
+            if NONSENSE_UNICODE_LETTERS.contains(c) {
+                w.unsupported.get_or_insert(format!("unknown Unicode class {}", c));
+            } else {
+                w.unicode = true;
+            }
+        }
+        ast::ClassUnicodeKind::Named(n) => {
+            if NONSENSE_UNICODE_NAMES.contains(&n.as_str()) {
+                w.unsupported.get_or_insert(format!("unknown Unicode class {}", n));
+            } else {
+                w.unicode = true;
+            }
+        }
+    }
+}
+
+fn walk_item(it: &ast::ClassSetItem, w: &mut Walk) {
+    use ast::ClassSetItem as I;
+    match it {
+        I::Unicode(u) => walk_unicode(u, w),
+        I::Bracketed(b) => walk_set(&b.kind, w),
+        I::Union(u) => u.items.iter().for_each(|x| walk_item(x, w)),
+        _ => {}
+    }
+}
+
+fn walk_set(s: &ast::ClassSet, w: &mut Walk) {
+    match s {
+        ast::ClassSet::Item(i) => walk_item(i, w),
+        ast::ClassSet::BinaryOp(op) => {
+            walk_set(&op.lhs, w);
+            walk_set(&op.rhs, w);
+        }
+    }
+}
+
+fn walk_ast(a: &Ast, w: &mut Walk) {
+    match a {
+        Ast::Empty(_) | Ast::Literal(_) | Ast::Dot(_) | Ast::ClassPerl(_) => {}
+        Ast::Flags(_) => {
+            w.unsupported.get_or_insert("flags".into());
+        }
+        Ast::Assertion(_) => {
+            w.unsupported.get_or_insert("assertion".into());
+        }
+        Ast::ClassUnicode(u) => walk_unicode(u, w),
+        Ast::ClassBracketed(b) => walk_set(&b.kind, w),
+        Ast::Repetition(r) => {
+            if !r.greedy {
+                w.unsupported.get_or_insert("non-greedy repetition".into());
+            }
+            walk_ast(&r.ast, w);
+        }
+        Ast::Group(g) => {
+            if let ast::GroupKind::NonCapturing(flags) = &g.kind {
+                if flags
+                    .items
+                    .iter()
+                    .any(|f| matches!(f.kind, ast::FlagsItemKind::Flag(_)))
+                {
+                    w.unsupported.get_or_insert("flagged group".into());
+                }
+            }
+            walk_ast(&g.ast, w);
+        }
+        Ast::Alternation(x) => x.asts.iter().for_each(|y| walk_ast(y, w)),
+        Ast::Concat(x) => x.asts.iter().for_each(|y| walk_ast(y, w)),
+    }
+}
+
+pub fn build_verdict(pattern: &str) -> BuildVerdict {
+    match regex_syntax::ast::parse::Parser::new().parse(pattern) {
+        Err(e) => BuildVerdict::MustErr(format!("syntax error: {}", e.kind())),
+        Ok(ast) => {
+            let mut w = Walk::default();
+            walk_ast(&ast, &mut w);
+            if let Some(u) = w.unsupported {
+                BuildVerdict::MustErr(u)
+            } else if w.unicode {
+                BuildVerdict::Either
+            } else {
+                BuildVerdict::MustOk
+            }
+        }
+    }
+}
